@@ -40,13 +40,14 @@ type Engine struct {
 	byName    map[string]*types.Package
 	typeCache map[string]types.Type
 	immutable map[string]bool
+	immutableSan map[string]bool // sanitized full names of immutable globals
 }
 
 func loadEngine(repo string, patterns []string) (*Engine, error) {
 	e := &Engine{repo: repo, funcs: map[string]*ssa.Function{}, blocks: map[string]*Block{}, ifaces: map[string]*Block{},
 		specFuncs: map[string]*Block{}, preds: map[string]*Block{}, ghosts: map[string]*Block{}, blockPkg: map[*Block]*types.Package{},
 		loopCache: map[*ssa.Function][]*astLoop{}, files: map[string]*ast.File{}, src: map[string][]byte{}, byName: map[string]*types.Package{},
-		allPkgs: map[string]*packages.Package{}, typeCache: map[string]types.Type{}, immutable: map[string]bool{}}
+		allPkgs: map[string]*packages.Package{}, typeCache: map[string]types.Type{}, immutable: map[string]bool{}, immutableSan: map[string]bool{}}
 	cfg := &packages.Config{Mode: packages.LoadAllSyntax, Dir: repo, BuildFlags: []string{"-tags=verif"}}
 	pkgs, err := packages.Load(cfg, patterns...)
 	if err != nil {
@@ -131,7 +132,8 @@ func (e *Engine) register(b *Block, pkgPath string) error {
 		e.axioms = append(e.axioms, b)
 	case "data":
 		for _, n := range strings.Fields(b.Name) {
-			e.immutable[n] = true
+			e.immutable[pkgPath+"."+n] = true
+			e.immutableSan[sanitize(pkgPath+"."+n)] = true
 		}
 	}
 	return nil
@@ -303,13 +305,7 @@ func (e *Engine) immutableGlobal(name string) bool {
 	if strings.HasPrefix(name, "ghost:") {
 		return false
 	}
-	if e.immutable[name] {
-		return true
-	}
-	if i := strings.LastIndex(name, "."); i >= 0 && e.immutable[name[i+1:]] {
-		return true
-	}
-	return false
+	return e.immutable[name]
 }
 
 var purePkgs = map[string]bool{
